@@ -5,6 +5,16 @@
 (* kind "diag":  [F: <<<<a,b,c>>>>, needs, sing: <<v>>, incons: <<<<a,b>>>>,*)
 (*                orientable, panic]                                        *)
 (*   needs / singular / inconsistent / orientable - equal the definitions   *)
+(*   orientations - on orientable manifolds (with or without boundary)      *)
+(*   FaceOrientations returns the edge-connected groups with flags whose    *)
+(*   flips make the orientation consistent (fogroups, foflags, fopanic)     *)
+(* kind "dcrepair": [F, sing0, needs0, panic] dual contouring with Repair   *)
+(*   and Clip of a set of unit voxels on the half-unit grid (the public      *)
+(*   route to ptrCoord.Clusters): dcrepair - the diagnostics are clean       *)
+(*   (achievable and achieved for every subset of the 2x2x2 block)           *)
+(* forest records of model3d also carry selfint (SelfIntersections of the    *)
+(*   nested shells: an "ideal mesh", 0) and selfintx (the same after adding  *)
+(*   a copy of a root shell shifted through its own surface: > 0)            *)
 (* kind "diag2": [S: <<<<a,b>>>>, manifold, incons: <<v>>]                  *)
 (*   manifold2 - every vertex has exactly two segments (the documented      *)
 (*   meaning); inconsistent2 - vertices that start or end two segments      *)
@@ -43,6 +53,13 @@ Holds(c) ==
       [] R.kind = "diag" /\ c = "singular" -> SeqSet(R.sing) = SingularVertsDef(R.F) /\ Len(R.sing) = Cardinality(SeqSet(R.sing))
       [] R.kind = "diag" /\ c = "inconsistent" -> SeqSet(R.incons) = DirInconsistent(R.F)
       [] R.kind = "diag" /\ c = "orientable" -> R.orientable = OrientableDef(R.F)
+      [] R.kind = "diag" /\ c = "orientations" ->
+            (ManifoldWithBoundary(R.F) /\ OrientableDef(R.F)) =>
+                (R.fopanic = "" /\ FaceOrientationsDef(R.F, R.fogroups, R.foflags))
+      [] R.kind = "dcrepair" /\ c = "dcrepair" ->
+            R.panic = "" /\ Len(R.F) > 0 /\ ~NeedsRepairDef(R.F) /\ SingularVertsDef(R.F) = {}
+      [] R.kind = "forest" /\ c = "selfint" ->
+            R.site = "model3d.MeshToHierarchy" => (R.selfint = 0 /\ R.selfintx > 0)
       [] R.kind = "diag2" /\ c = "manifold2" ->
             R.manifold = \A v \in UNION {{R.S[i][1], R.S[i][2]} : i \in 1..Len(R.S)} :
                             Cardinality({i \in 1..Len(R.S) : v \in {R.S[i][1], R.S[i][2]}}) = 2
@@ -61,7 +78,7 @@ Holds(c) ==
             \A i \in 1..Len(R.probes) : R.probes[i].hit = (Len(R.probes[i].in) % 2 = 1)
       [] OTHER -> TRUE
 Clauses == {"panic", "needs", "singular", "inconsistent", "orientable", "manifold2", "inconsistent2", "repair", "normals",
-            "nesting", "evenodd"}
+            "nesting", "evenodd", "orientations", "dcrepair", "selfint"}
 Fails == {c \in Clauses : ~Holds(c)}
 Init == rec \in 1..Len(Recs) /\ done = FALSE
 Next == /\ ~done /\ done' = TRUE /\ UNCHANGED rec
